@@ -247,6 +247,13 @@ func prepare(o *Obligation, dir string) {
 		o.Sliced = filepath.Join(dir, sanitizeFile(o.ID)+".sliced.smt2")
 		os.WriteFile(o.Sliced, []byte(fmt.Sprintf("; SLICED (%d of %d hypotheses) %s\n", len(sl), len(hyps), o.ID)+q1), 0o644)
 	}
+	// replay variant (watch constants for inputs and predicted outputs), for postconditions of simple functions
+	if pl := planReplay(o); pl != nil {
+		pl.file = filepath.Join(dir, sanitizeFile(o.ID)+".replay")
+		os.WriteFile(pl.file+".bounded.smt2", []byte(emitReplayQuery(hyps, o.Goal, pl, true)), 0o644)
+		os.WriteFile(pl.file+".smt2", []byte(emitReplayQuery(hyps, o.Goal, pl, false)), 0o644)
+		o.replay = pl
+	}
 	// relaxed variant (no quantified hypotheses): used only when the full query is undecided
 	q2, _ := emitQueryOpt(hyps, o.Goal, true, true)
 	o.Relaxed = filepath.Join(dir, sanitizeFile(o.ID)+".relaxed.smt2")
